@@ -84,4 +84,5 @@ class PandasDataFrameCache(FileCache):
             df = df[~df.index.duplicated(keep='first')]
             df = df.sort_index()
             update_applied = self.update_file(file_name, serialize_df(df))
-            return df if update_applied else self.update(file_name, new_df)
+        # retry with the per-file lock released: it is not re-entrant
+        return df if update_applied else self.update(file_name, new_df)
